@@ -263,19 +263,37 @@ theorem C13_serializer_positions (o : Opts) (c : Nat) (f : FI) (isKey : Bool) :
 /-- … and globally: with a serializer no bare scalar is left anywhere in the result of `asdict` (every value
     went through it), without one the result contains no serializer node; any depth. -/
 theorem C13_serializer_everywhere (o : Opts) (v : PVal) (out : Out) (h : asdictTop o true v = .ok out) :
-    (o.ser ≠ .off → clean ⟨true, true, false⟩ out = true) ∧ (o.ser = .off → clean ⟨false, true, true⟩ out = true) := by
+    (o.ser ≠ .off → o.ser ≠ .subst → clean ⟨true, true, false⟩ out = true) ∧
+    (o.ser = .off → clean ⟨false, true, true⟩ out = true) := by
   cases v with
   | inst c hh fs =>
     simp only [asdictTop, if_true] at h
     obtain ⟨items, h1, rfl⟩ := map_eq_ok h
     constructor
-    · intro hs
-      simpa [clean] using fieldsD_clean ⟨true, true, false⟩ o (by simp [Ban.fits, hs]) c fs items h1
+    · intro hs hs'
+      simpa [clean] using fieldsD_clean ⟨true, true, false⟩ o (by simp [Ban.fits, hs, hs']) c fs items h1
     · intro hs
       simpa [clean] using fieldsD_clean ⟨false, true, true⟩ o (by simp [Ban.fits, hs]) c fs items h1
   | atom a => simp [asdictTop] at h
   | coll k xs => simp [asdictTop] at h
   | dict k ps => simp [asdictTop] at h
+
+/-- **C13_serializer_result_is_used**: the value in the result is what the serializer *returned*, whatever that
+    is — `None`, a falsy value, `NOTHING`, a container, an attrs instance: below field level it is stored as it
+    is (`embed`), at field level it is what the branches of `asdict` make of it (for a leaf: itself; in particular
+    a result of `None` is not taken for "not handled"); with `recurse=False` it is stored as it is. -/
+theorem C13_serializer_result_is_used (o : Opts) (s : Subst) (c : Nat) (f : FI) (isKey : Bool) :
+    (∀ a, s.target.hits none (.atom a) = true → anythingS o s isKey (.atom a) = .ok (embed s.repl)) ∧
+    (∀ v, s.target.hits (some f.name) v = true → fieldS o s c f v = fieldD o.noSer c f s.repl) ∧
+    (∀ v r, s.target.hits (some f.name) v = true → s.repl = .atom r → fieldS o s c f v = .ok (.atom r)) ∧
+    (∀ v fs, s.target.hits (some f.name) v = true → passes o.filter f v = true →
+      flatS o s ((f, v) :: fs) = (f.name, embed s.repl) :: flatS o s fs) := by
+  refine ⟨?_, ?_, ?_, ?_⟩
+  · intro a h; simp [anythingS, h]
+  · intro v h; cases v <;> simp [fieldS, h]
+  · intro v r h hr
+    cases v <;> simp [fieldS, h, hr, fieldD, Opts.noSer, serFieldAtom, serApplies]
+  · intro v fs h hp; simp [flatS, h, hp]
 
 /-! ## astuple -/
 
@@ -335,9 +353,10 @@ theorem C13_roundtrip_flat (c : Case) (h : roundtripApplies c = true) (cls : Nat
   have hf : c.opts.filter = .none := hflt
   have hs : c.opts.ser = .off := by simp [Case.opts, hapi, hser]
   refine ⟨flatItems fs, ?_, construct_flat cls fs hd ha hpub, by simpa using hnone⟩
+  have hsub : c.activeSubst = none := by simp [Case.activeSubst, hser]
   cases hrec : c.recurse
-  · simp [runPlain, hapi, hv, asdictTop, hrec, flatD_flat c.opts cls hf hs]
-  · simp [runPlain, hapi, hv, asdictTop, hrec, fieldsD_flat c.opts cls hf hs fs ha]
+  · simp [runPlain, hapi, hv, asdictTop, hrec, hsub, flatD_flat c.opts cls hf hs]
+  · simp [runPlain, hapi, hv, asdictTop, hrec, hsub, fieldsD_flat c.opts cls hf hs fs ha]
 
 /-- **C13_exclude_is_negation**: `exclude(*what)` passes exactly what `include(*what)` rejects; and `include`
     passes iff the value's exact class, the attribute's name or the attribute itself is listed. -/
@@ -351,7 +370,7 @@ theorem C13_exclude_is_negation (ts : List TyTag) (ns : List String) (ss : List 
     `retain_collection_types=True` and the default factories, whatever else is passed. -/
 theorem C13_nextgen_retains (c : Case) (h : c.ng = true) :
     runPlain c = runPlain { c with ng := false, retain := true, dictFactory := .dict, tupleFactory := .tuple } := by
-  simp [runPlain, Case.opts, h]
+  simp [runPlain, Case.opts, Case.activeSubst, h]
 
 /-! ## Repaired deviations K13a / K13b / K13c: the former witnesses now satisfy the specification, and they
     discriminate — the model of the unrepaired code (`Proofs/C13Old.lean`) fails it on each -/
@@ -384,7 +403,7 @@ theorem K13_fixed_values :
     conversion succeeds -/
 def sample : Case :=
   { api := .asdict, ng := false, recurse := true, retain := true, filter := .excl [.str] ["nope"] [],
-    dictFactory := .odict, tupleFactory := .tuple, ser := .wrapLeaf, fault := none,
+    dictFactory := .odict, tupleFactory := .tuple, ser := .wrapLeaf, fault := none, subst := none,
     value := .inst 0 none
       [(fx, .coll (.ntuple 0) [int 1, .coll (.ntuple 1) [int 2, .coll .frozenset [int 3]]]),
        (fy, .dict .dict [(.coll .tuple [int 1, int 2], .coll .list [.inst 0 none [(fx, int 5), (fy, .atom (.str 1))]])])] }
